@@ -39,10 +39,23 @@ STAGES = ("tmp", "partial_input_buf")
 
 
 
+CAPS = {}      # staging field -> array capacity (filled from the ADT definitions by the rules)
+
+
 def _constval(t):
-    """value of a closed arithmetic term (e.g. MAX_REQUIRED_INPUT / 2), else None"""
+    """value of a closed arithmetic term (e.g. MAX_REQUIRED_INPUT / 2, or the length of a staging array), else None"""
+    def leaf(q):
+        if q[0] == "call" and q[1].endswith("::len"):
+            for f_, cap in CAPS.items():
+                if pat.has_field(q, f_) and cap is not None:
+                    return cap
+        if q[0] == "PtrMetadata":
+            for f_, cap in CAPS.items():
+                if pat.has_field(q, f_) and cap is not None:
+                    return cap
+        raise pat.NotEvaluable(q)
     try:
-        return pat.eval_term(t, lambda q: (_ for _ in ()).throw(pat.NotEvaluable(q)))
+        return pat.eval_term(t, leaf)
     except (pat.NotEvaluable, pat.Overflow):
         return None
 
@@ -207,8 +220,14 @@ def _array_cap(facts, adt_name, field):
     return None
 
 
+def _fill_caps(facts):
+    CAPS["partial_input_buf"] = _array_cap(facts, "decode::lzma::DecoderState", "partial_input_buf")
+    CAPS["tmp"] = _array_cap(facts, "decode::stream::Stream", "tmp")
+
+
 def rule_constants(facts):
     r = report.RuleResult("C05.R2", "look-ahead threshold = carry-over capacity = 20; header staging holds >= 13 + 5 bytes")
+    _fill_caps(facts)
     cap = _array_cap(facts, "decode::lzma::DecoderState", "partial_input_buf")
     tcap = _array_cap(facts, "decode::stream::Stream", "tmp")
     r.need("staging arrays", cap is not None and tcap is not None)
@@ -439,6 +458,7 @@ def rule_refill(facts):
 
 def rule_commit(facts):
     r = report.RuleResult("C05.R5", "with < T bytes available in Partial mode a symbol is committed only after a successful dry run")
+    _fill_caps(facts)
     p = pat.body_of(facts, "DecoderState::process_mode")
     r.need("process_mode", p is not None)
     if p is None:
@@ -596,6 +616,7 @@ def rule_carry(facts):
 
 def run(ctx, t0):
     facts = ctx.facts()
+    pat.FACTS = facts
     rules = [rule_purity(facts), rule_constants(facts), rule_staging(facts), rule_refill(facts), rule_commit(facts), rule_carry(facts)]
     expl = ("Static, structural clauses only: effect analysis of the update-flag family (every caller-visible store / mutable loan is "
             "control dependent on the flag or forwards it), capacity constants from the ADT definitions against the look-ahead tests, "
